@@ -37,13 +37,13 @@ def run(pid, tier, seed):
     pd = programs.ProgramDir("mtv_c18_")
     tot = {r: [0, 0] for r in RATES}      # rate -> [new-call draws, zero draws]
     try:
-        for pi in range(4 if quick else 40):
+        for pi in range(4 if quick else 250):
             k = 0
             name = "c18prog_%d_%d" % (seed % 1000, pi)
             src, funcs = programs.gen_module(chk.rng, name, with_async_gen=True)
             typer = lambda v: sexp.dumps(tyconv.canon(tyconv.ty_to_tree(get_type(v, k), tbl)))
             mod, path = pd.load(name, src)
-            steps = programs.make_workload(chk.rng, funcs, chk.rng.randrange(60, 140))
+            steps = programs.make_workload(chk.rng, funcs, chk.rng.randrange(60, 140), abandon=True)
             admit = lambda code, path=path: code.co_filename == path
             # reference: the same workload unsampled (implementation against itself; covers kinds of function whose
             # unsampled description is itself imperfect, e.g. asynchronous generators)
@@ -61,7 +61,7 @@ def run(pid, tier, seed):
                     chk.evaluations += 1
                     case = {"program": name, "rate": rate, "rng_seed": rng_seed, "steps": len(steps)}
                     chk.rel("corr.C18.stream_wellformed", not er.malformed, dict(case, detail=er.malformed[:3]))
-                    if tracer.traces:
+                    if tracer.traces and not any(st[0] == "gen_abandon" for st in steps):
                         chk.fail("residue", dict(case, detail="%d per-call entries left in the tracer" % len(tracer.traces)))
 
                     def union(ys):
@@ -84,6 +84,10 @@ def run(pid, tier, seed):
                     got = [g for g in got if g["qualname"] != "agen"]
                     want = [w for w in want if w["qualname"] != "agen"]
                     if rate in (None, 1):
+                        # generators dropped while suspended: logged (as raised) or not, depending on where they were parked
+                        truth_kept = c02.align_closed([e for e in truth if e["qualname"] != "agen"],
+                                                      [(g["qualname"], g["ret"] is None) for g in got])
+                        want = [{kk: e[kk] for kk in ("qualname", "args", "ret", "yield")} for e in truth_kept]
                         if got != want:
                             i = next((i for i, (a, b) in enumerate(zip(got, want)) if a != b), min(len(got), len(want)))
                             chk.fail("unsampled", dict(case, detail="with rate %r the log differs from the ground truth at index %d" % (rate, i),
